@@ -11,12 +11,18 @@ Three layers, all executable:
   (`transStd`, SPARQL 1.1 §18.2.2) and the standard bag semantics of that algebra over a set of
   triples (`eval`, §18.5), solutions being partial maps variable ↦ term;
 * the **model of the code as it is**: the translation `sparql_translator.rs` performs
-  (`transCode`: required patterns first, then every OPTIONAL, then every FILTER) and the physical
-  plan `planner_rdf.rs` builds and the operators of `grafeo-core` execute (`exec`): triple scans
-  that hand on *lexical forms* (strings) instead of terms, nested-loop joins on equal column
-  names, left joins padding with nulls, FILTER over `Value`s, UNION as concatenation of chunks
-  under the first branch's column names, DISTINCT dropped, sort / skip / limit / project /
-  count, and the update operators that turn strings back into terms by looking at them.
+  (`transCode`: the elements of a group folded left to right, FILTERs on top) and the physical plan
+  `planner_rdf.rs` builds and the operators of `grafeo-core` execute (`exec`): triple scans that
+  hand on *lexical forms* (strings) instead of terms, nested-loop joins on equal column names,
+  left joins padding with nulls, FILTER over `Value`s, UNION of branches lined up by column name,
+  sort / project / distinct / skip / limit / count, and the update operators that turn strings back
+  into terms by looking at them;
+* `namespace Old`: the same model for the code before the repairs of this round (required
+  patterns first, every OPTIONAL afterwards; DISTINCT dropped; UNION under the first branch's
+  column names; a variable twice in a pattern as two columns; BOUND = "is a column"; two-valued
+  `&&`/`||`; COUNT(?x) = COUNT(*); String-typed rebuilt columns; the empty group an error; updates
+  reading physical instead of selected rows; DELETE WHERE one operator per pattern; the validity
+  bitmap of `ValueVector`) — what the regression witnesses of `Props/C13Sparql.lean` are about.
 
 Terms are natural-number codes of a pool of structurally distinct terms (as in `Model/Rdf.lean`);
 everything the code derives from the *text* of a term is a field of `Env`.
@@ -56,9 +62,9 @@ structure Env where
   back : Nat → Nat
   /-- the kind of a term -/
   kind : Nat → Kind
-  /-- `true`: `ValueVector` as it is since /repo commit ea119b4 (every null is recorded); `false`:
-      the vector before that commit (the validity bitmap was created at the first null and never
-      grew, so every later null of a column read back as the default value `""`) -/
+  /-- read by `Old` only. `true`: `ValueVector` since /repo commit ea119b4 (every null is recorded);
+      `false`: the vector before that commit (the validity bitmap was created at the first null and
+      never grew, so every later null of a column read back as the default value `""`) -/
   vfix : Bool := true
 
 /-! ## surface syntax -/
@@ -148,63 +154,32 @@ def withFilter (fs : List Expr) (p : Pat) : Pat :=
   | none => p
   | some e => .filter e p
 
-/-! ### as the code does it (`translate_graph_pattern`, case `Group`) -/
+/-! ### as the code does it (`translate_graph_pattern`, case `Group`)
+
+The elements are folded in the order they are written: a required pattern is joined
+(`join_patterns`), an OPTIONAL is a left join of what the group has matched so far, the FILTERs are
+collected and put on top. -/
 
 structure CParts where
-  basic : Pat
-  opts : List Pat
+  pat : Pat
   filters : List Expr
 
-/-- step 3 of the translator: `if plan is Empty { plan = inner } else LeftJoin(plan, inner)` -/
-def optJoinCode (acc o : Pat) : Pat :=
-  match acc with
-  | .unit => o
-  | _ => .leftJoin acc o none
-
-def assembleCode (p : CParts) : Pat :=
-  withFilter p.filters (p.opts.foldl optJoinCode p.basic)
+def assembleCode (p : CParts) : Pat := withFilter p.filters p.pat
 
 def codeParts (acc : CParts) : Grp → CParts
   | .nil => acc
-  | .triples tps rest => codeParts { acc with basic := joinP acc.basic (bgp tps) } rest
+  | .triples tps rest => codeParts { acc with pat := joinP acc.pat (bgp tps) } rest
   | .optional g rest =>
-    codeParts { acc with opts := acc.opts ++ [assembleCode (codeParts ⟨.unit, [], []⟩ g)] } rest
+    codeParts { acc with pat := .leftJoin acc.pat (assembleCode (codeParts ⟨.unit, []⟩ g)) none } rest
   | .union a b rest =>
-    let u := Pat.union (assembleCode (codeParts ⟨.unit, [], []⟩ a)) (assembleCode (codeParts ⟨.unit, [], []⟩ b))
-    codeParts { acc with basic := joinP acc.basic u } rest
-  | .group g rest =>
-    codeParts { acc with basic := joinP acc.basic (assembleCode (codeParts ⟨.unit, [], []⟩ g)) } rest
+    let u := Pat.union (assembleCode (codeParts ⟨.unit, []⟩ a)) (assembleCode (codeParts ⟨.unit, []⟩ b))
+    codeParts { acc with pat := joinP acc.pat u } rest
+  | .group g rest => codeParts { acc with pat := joinP acc.pat (assembleCode (codeParts ⟨.unit, []⟩ g)) } rest
   | .filter e rest => codeParts { acc with filters := acc.filters ++ [e] } rest
 
-def Grp.append : Grp → Grp → Grp
-  | .nil, r => r
-  | .triples t rest, r => .triples t (rest.append r)
-  | .optional g rest, r => .optional g (rest.append r)
-  | .union a b rest, r => .union a b (rest.append r)
-  | .group g rest, r => .group g (rest.append r)
-  | .filter e rest, r => .filter e (rest.append r)
-
-def isSingle : Grp → Bool
-  | .triples _ .nil => true
-  | .optional _ .nil => true
-  | .union _ _ .nil => true
-  | .group _ .nil => true
-  | .filter _ .nil => true
-  | _ => false
-
-/-- the parser hands back a group of exactly one element as that element; nested in another
-group, a lone FILTER or OPTIONAL thereby becomes a FILTER or OPTIONAL of the outer group -/
-def unwrapG : Grp → Grp
-  | .nil => .nil
-  | .triples t rest => .triples t (unwrapG rest)
-  | .optional g rest => .optional (unwrapG g) (unwrapG rest)
-  | .union a b rest => .union (unwrapG a) (unwrapG b) (unwrapG rest)
-  | .group g rest => if isSingle (unwrapG g) then (unwrapG g).append (unwrapG rest) else .group (unwrapG g) (unwrapG rest)
-  | .filter e rest => .filter e (unwrapG rest)
-
-/-- the logical plan the translator produces for `{ g }` (at the top, in a UNION branch and in an
-OPTIONAL a group of one element is translated on its own: the general assembly gives the same plan) -/
-def transCode (g : Grp) : Pat := assembleCode (codeParts ⟨.unit, [], []⟩ (unwrapG g))
+/-- the logical plan the translator produces for `{ g }` (the parser hands back a group of one
+required pattern as that pattern; joining it into the enclosing group gives the same plan) -/
+def transCode (g : Grp) : Pat := assembleCode (codeParts ⟨.unit, []⟩ g)
 
 /-! ### as SPARQL 1.1 §18.2.2.6 says -/
 
@@ -391,6 +366,738 @@ def chunksAux {α : Type} (k : Nat) : Nat → List α → List (List α)
 
 /-- rows leave an operator in chunks of at most `k` -/
 def chunksOf {α : Type} (k : Nat) (l : List α) : List (List α) := chunksAux k l.length l
+
+/-- a chunk built row by row (`DataChunkBuilder` over `derive_rdf_schema`: untyped columns, which
+hold the strings of RDF terms, the integers of aggregates and nulls alike) -/
+def rebuild (rows : List Row) : Chunk := allSel rows
+
+/-! ### scan -/
+
+def patPos (env : Env) : PT → Option Nat
+  | .var _ => none
+  | .const c => some (env.litNorm c)
+
+def tpPattern (env : Env) (tp : TP) : Pattern := ⟨patPos env tp.s, patPos env tp.p, patPos env tp.o⟩
+
+def ptCols : PT → List Nat
+  | .var v => [v]
+  | .const _ => []
+
+/-- the variables of a triple pattern, position by position (a variable used twice is there twice) -/
+def tpCols (tp : TP) : List Nat := ptCols tp.s ++ ptCols tp.p ++ ptCols tp.o
+
+def ptBind (pt : PT) (x : Nat) : List (Nat × Nat) :=
+  match pt with
+  | .var v => [(v, x)]
+  | .const _ => []
+
+/-- (variable, term) for the variable positions of a pattern laid over a triple -/
+def tpBinds (tp : TP) (t : Triple) : List (Nat × Nat) := ptBind tp.s t.s ++ ptBind tp.p t.p ++ ptBind tp.o t.o
+
+/-- the first pair of every key: one column per variable -/
+def firstBinds : List (Nat × Nat) → List (Nat × Nat) → List (Nat × Nat)
+  | _, [] => []
+  | seen, b :: rest =>
+    if seen.any (fun s => s.1 == b.1) then firstBinds seen rest else b :: firstBinds (seen ++ [b]) rest
+
+/-- `same_term`: every later position of a variable holds the term of its first position -/
+def sameTerm : List (Nat × Nat) → List (Nat × Nat) → Bool
+  | _, [] => true
+  | seen, b :: rest =>
+    match seen.find? (fun s => s.1 == b.1) with
+    | some s => s.2 == b.2 && sameTerm seen rest
+    | none => sameTerm (seen ++ [b]) rest
+
+/-- the first occurrence of every variable -/
+def firstKeys : List Nat → List Nat → List Nat
+  | _, [] => []
+  | seen, v :: rest => if seen.contains v then firstKeys seen rest else v :: firstKeys (seen ++ [v]) rest
+
+/-- the columns of a scan: each variable once, in order of first position -/
+def scanCols (tp : TP) : List Nat := firstKeys [] (tpCols tp)
+
+def scanRow (env : Env) (tp : TP) (t : Triple) : Row :=
+  (firstBinds [] (tpBinds tp t)).map fun b => Cell.str (env.lex b.2)
+
+/-- `RdfStore::find` with the iteration order of the primary hash set given as `full` -/
+def findIn (st : Store) (full : List Triple) (pat : Pattern) : List Triple :=
+  match pat.s, pat.p, pat.o with
+  | some s, _, _ => (idxGet st.sIdx s).filter pat.matches
+  | none, some p, _ => (idxGet st.pIdx p).filter pat.matches
+  | none, none, some o =>
+    if st.indexObjects then (idxGet st.oIdx o).filter pat.matches else full.filter pat.matches
+  | none, none, none => full.filter pat.matches
+
+def scanChunk : Nat := 1024
+def joinChunk : Nat := 2048
+
+def scanT (env : Env) (st : Store) (full : List Triple) (tp : TP) : Table :=
+  { cols := scanCols tp
+    chunks := (chunksOf scanChunk
+      (((findIn st full (tpPattern env tp)).filter fun t => sameTerm [] (tpBinds tp t)).map (scanRow env tp))).map allSel }
+
+/-! ### nested-loop join on equal column names -/
+
+def pairsFor (rc : List Nat) (a : Nat) (i : Nat) : List (Nat × Nat) :=
+  (rc.zipIdx).filterMap fun bj => if a = bj.1 then some (i, bj.2) else none
+
+/-- `shared_vars`: every pair of a left and a right column with the same name -/
+def sharedPairs (lc rc : List Nat) : List (Nat × Nat) :=
+  (lc.zipIdx).flatMap fun ai => pairsFor rc ai.1 ai.2
+
+/-- `RdfJoinCondition::evaluate` (`get_value` answers `Some(Value::Null)` for a null, and
+`Value::Null == Value::Null`) -/
+def condPair (l r : Row) (ij : Nat × Nat) : Bool :=
+  match l[ij.1]?, r[ij.2]? with
+  | some a, some b => a == b
+  | _, _ => false
+
+def joinCond (pairs : List (Nat × Nat)) (l r : Row) : Bool := pairs.all (condPair l r)
+
+/-- indices of the right columns that are not also left columns -/
+def keepRight (lc rc : List Nat) : List Nat :=
+  (rc.zipIdx).filterMap fun bj => if lc.contains bj.1 then none else some bj.2
+
+def joinRow (keep : List Nat) (l r : Row) : Row := l ++ keep.map fun j => r.getD j .null
+
+def joinOne (left : Bool) (pairs : List (Nat × Nat)) (keep : List Nat) (rrows : List Row) (l : Row) : List Row :=
+  let ms := (rrows.filter (joinCond pairs l)).map (joinRow keep l)
+  if left && ms.isEmpty then [l ++ List.replicate keep.length .null] else ms
+
+def nlJoin (left : Bool) (ta tb : Table) : Table :=
+  let rrows := tb.rows
+  let pairs := sharedPairs ta.cols tb.cols
+  let keep := keepRight ta.cols tb.cols
+  let outCols := ta.cols ++ keep.map fun j => tb.cols.getD j 0
+  { cols := outCols
+    chunks := ta.chunks.flatMap fun c =>
+      (chunksOf joinChunk ((selRows c).flatMap (joinOne left pairs keep rrows))).map rebuild }
+
+/-! ### UNION: the branches lined up by column name -/
+
+def firstIdx (cols : List Nat) (v : Nat) : Option Nat :=
+  ((cols.zipIdx).find? fun ci => ci.1 == v).map (·.2)
+
+/-- `ProjectExpr::Column(position of the name)` or `ProjectExpr::Constant(Null)` -/
+def relayRow (bc uc : List Nat) (r : Row) : Row :=
+  uc.map fun v => match firstIdx bc v with
+    | some i => r.getD i .null
+    | none => .null
+
+/-- a branch whose columns are the common layout already is passed through; any other one goes
+through a `ProjectOperator` (one output chunk per input chunk, selected rows only) -/
+def relayChunks (bc uc : List Nat) (cs : List Chunk) : List Chunk :=
+  if bc == uc then cs else cs.map fun c => rebuild ((selRows c).map (relayRow bc uc))
+
+def unionCols (ca cb : List Nat) : List Nat := ca ++ cb.filter fun v => !ca.contains v
+
+def unionT (ta tb : Table) : Table :=
+  let uc := unionCols ta.cols tb.cols
+  { cols := uc, chunks := relayChunks ta.cols uc ta.chunks ++ relayChunks tb.cols uc tb.chunks }
+
+/-! ### FILTER over `Value`s (`RdfExpressionPredicate`) -/
+
+inductive V where
+  | null
+  | str (l : Nat)
+  | int (n : Int)
+  | bool (b : Bool)
+  deriving DecidableEq, Repr
+
+def cellV : Cell → V
+  | .null => .null
+  | .str l => .str l
+  | .int n => .int n
+
+/-- the last column with that name (`HashMap` collected from `(name, index)` pairs) -/
+def colIdx (cols : List Nat) (v : Nat) : Option Nat :=
+  ((cols.zipIdx).filter fun ci => ci.1 == v).getLast?.map (·.2)
+
+/-- `bound_value`: a null cell is an unbound variable and has no value -/
+def boundCell : Cell → Option V
+  | .null => none
+  | .str l => some (.str l)
+  | .int n => some (.int n)
+
+def ptV (env : Env) (cols : List Nat) (row : Row) : PT → Option V
+  | .var v => (colIdx cols v).bind fun i => (row[i]?).bind boundCell
+  | .const c => match env.constVal c with
+    | .str l => some (.str l)
+    | .int n => some (.int n)
+
+def asBool : V → Option Bool
+  | .bool b => some b
+  | _ => none
+
+/-- `compare_values(left, right, is_lt)` -/
+def ltV (env : Env) (a b : V) : Option V :=
+  match a, b with
+  | .int x, .int y => some (.bool (decide (x < y)))
+  | .str x, .str y =>
+    match env.num x, env.num y with
+    | some p, some q => some (.bool (decide (p < q)))
+    | _, _ => some (.bool (env.strLt x y))
+  | .str x, .int y => (env.num x).map fun p => .bool (decide (p < y))
+  | .int x, .str y => (env.num y).map fun q => .bool (decide (x < q))
+  | _, _ => none
+
+def evalF (env : Env) (cols : List Nat) (row : Row) : Expr → Option V
+  | .eq a b => (ptV env cols row a).bind fun x => (ptV env cols row b).map fun y => .bool (x == y)
+  | .ne a b => (ptV env cols row a).bind fun x => (ptV env cols row b).map fun y => .bool (x != y)
+  | .lt a b => (ptV env cols row a).bind fun x => (ptV env cols row b).bind fun y => ltV env x y
+  | .bound v => some (.bool (ptV env cols row (.var v)).isSome)
+  | .not e => ((evalF env cols row e).bind asBool).map fun b => .bool (!b)
+  | .and a b => (and3 ((evalF env cols row a).bind asBool) ((evalF env cols row b).bind asBool)).map V.bool
+  | .or a b => (or3 ((evalF env cols row a).bind asBool) ((evalF env cols row b).bind asBool)).map V.bool
+
+def passes (env : Env) (cols : List Nat) (e : Expr) (row : Row) : Bool :=
+  evalF env cols row e == some (.bool true)
+
+/-- `FilterOperator`: narrows the selection vector, drops a chunk nothing of which passes -/
+def filterChunk (env : Env) (cols : List Nat) (e : Expr) (c : Chunk) : Chunk :=
+  c.map fun br => (br.1 && passes env cols e br.2, br.2)
+
+def anySel (c : Chunk) : Bool := c.any (·.1)
+
+def filterT (env : Env) (e : Expr) (t : Table) : Table :=
+  { t with chunks := (t.chunks.map (filterChunk env t.cols e)).filter anySel }
+
+/-! ### the pattern level of the physical plan -/
+
+/-- `SingleRowOperator`: one row without columns -/
+def unitT : Table := { cols := [], chunks := [[(true, [])]] }
+
+def exec (env : Env) (st : Store) (full : List Triple) : Pat → Table
+  | .unit => unitT
+  | .scan tp => scanT env st full tp
+  | .join a b => nlJoin false (exec env st full a) (exec env st full b)
+  | .leftJoin a b none => nlJoin true (exec env st full a) (exec env st full b)
+  | .leftJoin a b (some e) =>                       -- not produced by `transCode`
+    nlJoin true (exec env st full a) (filterT env e (exec env st full b))
+  | .union a b => unionT (exec env st full a) (exec env st full b)
+  | .filter e a => filterT env e (exec env st full a)
+
+/-! ### solution modifiers -/
+
+def cellLt (env : Env) (a b : Cell) : Bool :=
+  match a, b with
+  | .str x, .str y => env.strLt x y
+  | .int x, .int y => decide (x < y)
+  | _, _ => false
+
+/-- `compare_values_with_nulls` with `NullsLast`, then the direction: `.lt`, `.eq` or `.gt` -/
+def cmpKey (env : Env) (desc : Bool) (a b : Cell) : Ordering :=
+  let o : Ordering :=
+    match a, b with
+    | .null, .null => .eq
+    | .null, _ => .gt
+    | _, .null => .lt
+    | x, y => if cellLt env x y then .lt else if cellLt env y x then .gt else .eq
+  if desc then o.swap else o
+
+def cmpRows (env : Env) (keys : List (Nat × Bool)) (a b : Row) : Ordering :=
+  match keys with
+  | [] => .eq
+  | (i, desc) :: rest =>
+    match cmpKey env desc (a.getD i .null) (b.getD i .null) with
+    | .eq => cmpRows env rest a b
+    | o => o
+
+/-- stable insertion: `x` goes behind everything that is not greater -/
+def insertStable (le : Row → Row → Bool) (x : Row) : List Row → List Row
+  | [] => [x]
+  | y :: ys => if le y x then y :: insertStable le x ys else x :: y :: ys
+
+/-- the stable sort (`slice::sort_by`) -/
+def sortStable (le : Row → Row → Bool) (l : List Row) : List Row :=
+  l.foldl (fun acc x => insertStable le x acc) []
+
+def resolveKeys (cols : List Nat) : List (Nat × Bool) → Option (List (Nat × Bool))
+  | [] => some []
+  | (v, d) :: rest => (colIdx cols v).bind fun i => (resolveKeys cols rest).map fun r => (i, d) :: r
+
+def sortT (env : Env) (keys : List (Nat × Bool)) (t : Table) : Option Table :=
+  (resolveKeys t.cols keys).map fun ks =>
+    let sorted := sortStable (fun a b => cmpRows env ks a b != .gt) t.rows
+    { t with chunks := (chunksOf joinChunk sorted).map rebuild }
+
+/-- `SkipOperator` -/
+def skipChunks : Nat → List Chunk → List Chunk
+  | _, [] => []
+  | 0, cs => cs
+  | k + 1, c :: cs =>
+    let n := (selRows c).length
+    if k + 1 ≥ n then skipChunks (k + 1 - n) cs
+    else rebuild ((selRows c).drop (k + 1)) :: cs
+
+/-- `LimitOperator` -/
+def limitChunks : Nat → List Chunk → List Chunk
+  | _, [] => []
+  | 0, _ => []
+  | k + 1, c :: cs =>
+    let n := (selRows c).length
+    if n = 0 then limitChunks (k + 1) cs
+    else if n ≤ k + 1 then c :: limitChunks (k + 1 - n) cs
+    else [rebuild ((selRows c).take (k + 1))]
+
+def skipT (k : Option Nat) (t : Table) : Table :=
+  match k with
+  | none => t
+  | some k => { t with chunks := skipChunks k t.chunks }
+
+def limitT (k : Option Nat) (t : Table) : Table :=
+  match k with
+  | none => t
+  | some k => { t with chunks := limitChunks k t.chunks }
+
+/-- `plan_project`: a variable that is a column by its (last) index, any other one as null -/
+def projectRow (cols vars : List Nat) (r : Row) : Row :=
+  vars.map fun v => match colIdx cols v with
+    | some i => r.getD i .null
+    | none => .null
+
+/-- `ProjectOperator`: one output chunk per input chunk -/
+def projectT (vars : List Nat) (t : Table) : Table :=
+  { cols := vars, chunks := t.chunks.map fun c => rebuild ((selRows c).map (projectRow t.cols vars)) }
+
+def orderT (env : Env) (keys : List (Nat × Bool)) (t : Table) : Option Table :=
+  if keys.isEmpty then some t else sortT env keys t
+
+/-- `DistinctOperator`: the first row of every kind, chunk by chunk (a chunk that brings nothing
+new is skipped) -/
+def freshRows (seen : List Row) : List Row → List Row
+  | [] => []
+  | r :: rs => if seen.contains r then freshRows seen rs else r :: freshRows (seen ++ [r]) rs
+
+def distinctChunks (seen : List Row) : List Chunk → List Chunk
+  | [] => []
+  | c :: cs =>
+    let fresh := freshRows seen (selRows c)
+    if fresh.isEmpty then distinctChunks seen cs else rebuild fresh :: distinctChunks (seen ++ fresh) cs
+
+def distinctT (d : Bool) (t : Table) : Table :=
+  if d then { t with chunks := distinctChunks [] t.chunks } else t
+
+def projOpt (proj : Option (List Nat)) (t : Table) : Table :=
+  match proj with
+  | none => t
+  | some [] => t
+  | some vars => projectT vars t
+
+/-- `translate_select` + planner for a SELECT without aggregates: WHERE, ORDER BY, projection,
+DISTINCT, OFFSET, LIMIT -/
+def execSelect (env : Env) (st : Store) (full : List Triple) (q : Select) : Option Table :=
+  (orderT env q.order (exec env st full (transCode q.where_))).map fun t1 =>
+    limitT q.limit (skipT q.offset (distinctT q.distinct (projOpt q.proj t1)))
+
+/-! ### COUNT -/
+
+def dedupCells : List Cell → List Cell
+  | [] => []
+  | c :: cs => if (dedupCells cs).contains c then dedupCells cs else c :: dedupCells cs
+
+/-- the state of one COUNT after the rows of a group: COUNT(\*) counts rows, COUNT(?x) the rows in
+which the column is not null, COUNT(DISTINCT ?x) the distinct non-null values -/
+def countOf (distinct : Bool) (argIdx : Option Nat) (rows : List Row) : Int :=
+  match argIdx with
+  | none => rows.length
+  | some i =>
+    let vals := (rows.map fun r => r.getD i .null).filter (· != .null)
+    if distinct then (dedupCells vals).length else vals.length
+
+def resolveCols (cols : List Nat) : List Nat → Option (List Nat)
+  | [] => some []
+  | v :: rest => (colIdx cols v).bind fun i => (resolveCols cols rest).map fun r => i :: r
+
+def groupKeys (idx : List Nat) (rows : List Row) : List (List Cell) :=
+  (rows.map fun r => idx.map fun i => r.getD i .null).foldl (fun acc k => if acc.contains k then acc else acc ++ [k]) []
+
+def argIndex (cols : List Nat) : Option Nat → Option (Option Nat)
+  | none => some none
+  | some v => (colIdx cols v).map some
+
+def aggregateT (q : Count) (t : Table) : Option Table :=
+  (resolveCols t.cols q.groupBy).bind fun gidx =>
+  (argIndex t.cols q.arg).map fun argIdx =>
+    let rows := t.rows
+    if q.groupBy.isEmpty then
+      { cols := [q.alias], chunks := [allSel [[Cell.int (countOf q.distinct argIdx rows)]]] }
+    else
+      let out := (groupKeys gidx rows).map fun k =>
+        k ++ [Cell.int (countOf q.distinct argIdx (rows.filter fun r => (gidx.map fun i => r.getD i .null) == k))]
+      { cols := q.groupBy ++ [q.alias], chunks := (chunksOf joinChunk out).map allSel }
+
+def execCount (env : Env) (st : Store) (full : List Triple) (q : Count) : Option Table :=
+  (aggregateT q (exec env st full (transCode q.where_))).bind fun t0 =>
+  (orderT env q.order t0).map fun t1 => limitT q.limit (skipT q.offset t1)
+
+/-! ### updates -/
+
+def isSubjectKind : Kind → Bool
+  | .iri | .blank => true
+  | _ => false
+
+/-- `is_well_formed_triple` -/
+def wellFormed (env : Env) (s p : Nat) : Bool := isSubjectKind (env.kind s) && env.kind p == .iri
+
+structure UState where
+  st : Store
+  full : List Triple
+
+def UState.insert (u : UState) (t : Triple) : UState :=
+  if t ∈ u.st.triples then u else { st := (u.st.insert t).1, full := u.full ++ [t] }
+
+def UState.remove (u : UState) (t : Triple) : UState :=
+  { st := (u.st.remove t).1, full := u.full.filter (· != t) }
+
+/-- `resolve_component`: a constant through `literal_to_value`, a variable through the binding's
+string and `value_to_term` -/
+def resolvePT (env : Env) (cols : List Nat) (row : Row) : PT → Option Nat
+  | .const c => some (env.litNorm c)
+  | .var v => (colIdx cols v).bind fun i =>
+    match row[i]? with
+    | some (.str l) => some (env.back l)
+    | some (.int n) => if 0 ≤ n then some (env.back n.toNat) else none   -- unreachable in the fragment
+    | _ => none
+
+def instantiate (env : Env) (cols : List Nat) (row : Row) (tp : TP) : Option Triple :=
+  (resolvePT env cols row tp.s).bind fun s => (resolvePT env cols row tp.p).bind fun p =>
+    (resolvePT env cols row tp.o).bind fun o => if wellFormed env s p then some ⟨s, p, o⟩ else none
+
+/-- `RdfModifyOperator`: the WHERE pattern is evaluated once; every delete template is instantiated
+with every selected row and removed, then every insert template likewise and inserted -/
+def applyModify (env : Env) (u : UState) (del ins : List TP) (t : Table) : UState :=
+  let rows := t.rows
+  let u1 := (del.flatMap fun tp => rows.filterMap fun r => instantiate env t.cols r tp).foldl UState.remove u
+  (ins.flatMap fun tp => rows.filterMap fun r => instantiate env t.cols r tp).foldl UState.insert u1
+
+/-- the parser accepts a variable or an IRI as the verb of a triple pattern or template -/
+def predOk (env : Env) (tp : TP) : Bool :=
+  match tp.p with
+  | .const c => env.kind c == .iri
+  | .var _ => true
+
+def execUpdate (env : Env) (u : UState) : Update → Option UState
+  | .insertData ts =>
+    if ts.all fun t => wellFormed env (env.litNorm t.s) (env.litNorm t.p) then
+      some (ts.foldl (fun u t => u.insert ⟨env.litNorm t.s, env.litNorm t.p, env.litNorm t.o⟩) u)
+    else none
+  | .deleteData ts =>
+    if ts.all fun t => wellFormed env (env.litNorm t.s) (env.litNorm t.p) then
+      some (ts.foldl (fun u t => u.remove ⟨env.litNorm t.s, env.litNorm t.p, env.litNorm t.o⟩) u)
+    else none
+  | .deleteWhere tps =>
+    -- DELETE WHERE { P } is DELETE { P } WHERE { P }
+    if tps.all (predOk env) then some (applyModify env u tps [] (exec env u.st u.full (bgp tps))) else none
+  | .modify del ins w =>
+    if (del ++ ins).all (predOk env) then some (applyModify env u del ins (exec env u.st u.full (transCode w)))
+    else none
+
+/-! ## specification of the query forms and of the updates -/
+
+def restrict (vars : List Nat) (μ : Sol) : Sol :=
+  (List.range μ.length).map fun v => if vars.contains v then μ.get v else none
+
+/-- DISTINCT: every solution once (the first of its kind stays where it is) -/
+def dedupSols : List Sol → List Sol
+  | [] => []
+  | c :: cs => c :: (dedupSols cs).filter (· != c)
+
+/-- the order of §15.1 on the terms of one class: unbound < blank < IRI < literal; IRIs and simple
+literals by their text; everything else is left open by the standard (`none`) -/
+def rank (env : Env) : Option Nat → Nat
+  | none => 0
+  | some x => match env.kind x with
+    | .blank => 1
+    | .iri => 2
+    | _ => 3
+
+def termLt (env : Env) (a b : Option Nat) : Bool :=
+  if rank env a != rank env b then decide (rank env a < rank env b)
+  else match a, b with
+    | some x, some y =>
+      match env.kind x, env.kind y with
+      | .int m, .int n => decide (m < n)
+      | _, _ => env.strLt (env.lex x) (env.lex y)
+    | _, _ => false
+
+def cmpSol (env : Env) (keys : List (Nat × Bool)) (a b : Sol) : Ordering :=
+  match keys with
+  | [] => .eq
+  | (v, desc) :: rest =>
+    let o : Ordering := if termLt env (a.get v) (b.get v) then .lt else if termLt env (b.get v) (a.get v) then .gt else .eq
+    match (if desc then o.swap else o) with
+    | .eq => cmpSol env rest a b
+    | o' => o'
+
+def insertSol (le : Sol → Sol → Bool) (x : Sol) : List Sol → List Sol
+  | [] => [x]
+  | y :: ys => if le y x then y :: insertSol le x ys else x :: y :: ys
+
+def sortSols (le : Sol → Sol → Bool) (l : List Sol) : List Sol :=
+  l.foldl (fun acc x => insertSol le x acc) []
+
+def sliceOpt {α : Type} (offset limit : Option Nat) (l : List α) : List α :=
+  let l1 := match offset with | none => l | some k => l.drop k
+  match limit with | none => l1 | some k => l1.take k
+
+/-- what the projection of a SELECT does to a solution -/
+def projSol : Option (List Nat) → Sol → Sol
+  | none => id
+  | some vars => restrict vars
+
+/-- SELECT (§18.2.4–18.2.5): pattern, ORDER BY, projection, DISTINCT, OFFSET/LIMIT -/
+def specSelect (env : Env) (n : Nat) (G : List Triple) (q : Select) : List Sol :=
+  let sols := eval env n G (transStd q.where_)
+  let sorted := if q.order.isEmpty then sols else sortSols (fun a b => cmpSol env q.order a b != .gt) sols
+  let projected := sorted.map (projSol q.proj)
+  let dd := if q.distinct then dedupSols projected else projected
+  sliceOpt q.offset q.limit dd
+
+/-- one group of a COUNT query: the key and the number -/
+structure CountRow where
+  key : List (Option Nat)
+  count : Nat
+  deriving DecidableEq, Repr
+
+def dedupTerms : List Nat → List Nat
+  | [] => []
+  | c :: cs => if (dedupTerms cs).contains c then dedupTerms cs else c :: dedupTerms cs
+
+def specCountOf (q : Count) (sols : List Sol) : Nat :=
+  match q.arg with
+  | none => sols.length
+  | some v =>
+    let vals := sols.filterMap fun μ => μ.get v
+    if q.distinct then (dedupTerms vals).length else vals.length
+
+def specGroupKeys (vars : List Nat) (sols : List Sol) : List (List (Option Nat)) :=
+  (sols.map fun μ => vars.map μ.get).foldl (fun acc k => if acc.contains k then acc else acc ++ [k]) []
+
+/-- COUNT with GROUP BY (§18.5, Group / Aggregation / AggregateJoin) before ORDER BY and slicing -/
+def specCountRows (env : Env) (n : Nat) (G : List Triple) (q : Count) : List CountRow :=
+  let sols := eval env n G (transStd q.where_)
+  if q.groupBy.isEmpty then [⟨[], specCountOf q sols⟩]
+  else (specGroupKeys q.groupBy sols).map fun k =>
+    ⟨k, specCountOf q (sols.filter fun μ => (q.groupBy.map μ.get) == k)⟩
+
+def cmpNat (desc : Bool) (a b : Nat) : Ordering :=
+  let o : Ordering := if a < b then .lt else if b < a then .gt else .eq
+  if desc then o.swap else o
+
+def cmpTerm (env : Env) (desc : Bool) (a b : Option Nat) : Ordering :=
+  let o : Ordering := if termLt env a b then .lt else if termLt env b a then .gt else .eq
+  if desc then o.swap else o
+
+def keyAt (q : Count) (r : CountRow) (v : Nat) : Option Nat :=
+  ((q.groupBy.zip r.key).find? fun vk => vk.1 == v).bind (·.2)
+
+def cmpCountRow (env : Env) (q : Count) (keys : List (Nat × Bool)) (a b : CountRow) : Ordering :=
+  match keys with
+  | [] => .eq
+  | (v, desc) :: rest =>
+    match (if v = q.alias then cmpNat desc a.count b.count else cmpTerm env desc (keyAt q a v) (keyAt q b v)) with
+    | .eq => cmpCountRow env q rest a b
+    | o => o
+
+def insertCR (le : CountRow → CountRow → Bool) (x : CountRow) : List CountRow → List CountRow
+  | [] => [x]
+  | y :: ys => if le y x then y :: insertCR le x ys else x :: y :: ys
+
+def specCount (env : Env) (n : Nat) (G : List Triple) (q : Count) : List CountRow :=
+  let rows := specCountRows env n G q
+  let sorted := if q.order.isEmpty then rows
+    else rows.foldl (fun acc x => insertCR (fun a b => cmpCountRow env q q.order a b != .gt) x acc) []
+  sliceOpt q.offset q.limit sorted
+
+def specInsert (set : List Triple) (t : Triple) : List Triple := if t ∈ set then set else set ++ [t]
+def specRemove (set : List Triple) (t : Triple) : List Triple := set.filter (· != t)
+
+def valOf (μ : Sol) : PT → Option Nat
+  | .const c => some c
+  | .var v => μ.get v
+
+/-- instantiation of a template triple; an unbound variable or an ill-formed triple gives nothing -/
+def specInst (env : Env) (μ : Sol) (tp : TP) : Option Triple :=
+  (valOf μ tp.s).bind fun s => (valOf μ tp.p).bind fun p => (valOf μ tp.o).bind fun o =>
+    if wellFormed env s p then some ⟨s, p, o⟩ else none
+
+def maxVarPT : PT → Nat
+  | .var v => v + 1
+  | .const _ => 0
+
+def nVarsTPs (tps : List TP) : Nat :=
+  tps.foldl (fun m tp => max m (max (maxVarPT tp.s) (max (maxVarPT tp.p) (maxVarPT tp.o)))) 0
+
+/-- SPARQL 1.1 Update §3.1: the resulting graph; `none` = the request is not legal
+(a literal subject or a non-IRI predicate in ground data) -/
+def specUpdate (env : Env) (n : Nat) (G : List Triple) : Update → Option (List Triple)
+  | .insertData ts => if ts.all fun t => wellFormed env t.s t.p then some (ts.foldl specInsert G) else none
+  | .deleteData ts => if ts.all fun t => wellFormed env t.s t.p then some (ts.foldl specRemove G) else none
+  | .deleteWhere tps =>
+    if tps.all (predOk env) then
+      let sols := eval env n G (bgp tps)
+      some ((tps.flatMap fun tp => sols.filterMap fun μ => specInst env μ tp).foldl specRemove G)
+    else none
+  | .modify del ins w =>
+    if (del ++ ins).all (predOk env) then
+      let sols := eval env n G (transStd w)
+      let G1 := (del.flatMap fun tp => sols.filterMap fun μ => specInst env μ tp).foldl specRemove G
+      some ((ins.flatMap fun tp => sols.filterMap fun μ => specInst env μ tp).foldl specInsert G1)
+    else none
+
+/-! ## syntactic conditions (hypotheses of the theorems in `Props/C13Sparql.lean`, signatures in
+the driver) -/
+
+/-- the column names the planner computes (`plan_join`: all left, then the right ones that are new;
+`plan_union`: those of the first input) -/
+def patCols : Pat → List Nat
+  | .unit => []
+  | .scan tp => scanCols tp
+  | .join a b => patCols a ++ (patCols b).filter fun v => !(patCols a).contains v
+  | .leftJoin a b _ => patCols a ++ (patCols b).filter fun v => !(patCols a).contains v
+  | .union a b => unionCols (patCols a) (patCols b)
+  | .filter _ a => patCols a
+
+/-- variables bound in every solution -/
+def certain : Pat → List Nat
+  | .unit => []
+  | .scan tp => scanCols tp
+  | .join a b => certain a ++ certain b
+  | .leftJoin a _ _ => certain a
+  | .union a b => (certain a).filter fun v => (certain b).contains v
+  | .filter _ a => certain a
+
+def linearTP (tp : TP) : Bool := decide (tpCols tp).Nodup
+
+def patLinear : Pat → Bool
+  | .unit => true
+  | .scan tp => linearTP tp
+  | .join a b => patLinear a && patLinear b
+  | .leftJoin a b _ => patLinear a && patLinear b
+  | .union a b => patLinear a && patLinear b
+  | .filter _ a => patLinear a
+
+def patHasOptional : Pat → Bool
+  | .unit => false
+  | .scan _ => false
+  | .leftJoin _ _ _ => true
+  | .join a b => patHasOptional a || patHasOptional b
+  | .union a b => patHasOptional a || patHasOptional b
+  | .filter _ a => patHasOptional a
+
+/-- `leftJoin a b (some e)` written the way the translator writes it -/
+def normOpt : Pat → Pat
+  | .unit => .unit
+  | .scan tp => .scan tp
+  | .join a b => .join (normOpt a) (normOpt b)
+  | .union a b => .union (normOpt a) (normOpt b)
+  | .filter e a => .filter e (normOpt a)
+  | .leftJoin a b none => .leftJoin (normOpt a) (normOpt b) none
+  | .leftJoin a b (some e) => .leftJoin (normOpt a) (.filter e (normOpt b)) none
+
+def unionAligned : Pat → Bool
+  | .unit => true
+  | .scan _ => true
+  | .join a b => unionAligned a && unionAligned b
+  | .leftJoin a b _ => unionAligned a && unionAligned b
+  | .union a b => patCols a == patCols b && unionAligned a && unionAligned b
+  | .filter _ a => unionAligned a
+
+def ptConsts : PT → List Nat
+  | .var _ => []
+  | .const c => [c]
+
+def tpConsts (tp : TP) : List Nat := ptConsts tp.s ++ ptConsts tp.p ++ ptConsts tp.o
+
+def exprConsts : Expr → List Nat
+  | .eq a b => ptConsts a ++ ptConsts b
+  | .ne a b => ptConsts a ++ ptConsts b
+  | .lt a b => ptConsts a ++ ptConsts b
+  | .bound _ => []
+  | .not e => exprConsts e
+  | .and a b => exprConsts a ++ exprConsts b
+  | .or a b => exprConsts a ++ exprConsts b
+
+def condConsts : Option Expr → List Nat
+  | none => []
+  | some e => exprConsts e
+
+def patConsts : Pat → List Nat
+  | .unit => []
+  | .scan tp => tpConsts tp
+  | .join a b => patConsts a ++ patConsts b
+  | .union a b => patConsts a ++ patConsts b
+  | .leftJoin a b c => patConsts a ++ patConsts b ++ condConsts c
+  | .filter e a => exprConsts e ++ patConsts a
+
+def triplesTerms (G : List Triple) : List Nat := G.flatMap fun t => [t.s, t.p, t.o]
+
+/-- two different terms of the list are written the same way -/
+def lexClash (env : Env) (terms : List Nat) : Bool :=
+  terms.any fun a => terms.any fun b => a != b && env.lex a == env.lex b
+
+/-! ## the code before the repairs of this round -/
+
+namespace Old
+
+/-! ### as the code does it (`translate_graph_pattern`, case `Group`) -/
+
+structure CParts where
+  basic : Pat
+  opts : List Pat
+  filters : List Expr
+
+/-- step 3 of the translator: `if plan is Empty { plan = inner } else LeftJoin(plan, inner)` -/
+def optJoinCode (acc o : Pat) : Pat :=
+  match acc with
+  | .unit => o
+  | _ => .leftJoin acc o none
+
+def assembleCode (p : CParts) : Pat :=
+  withFilter p.filters (p.opts.foldl optJoinCode p.basic)
+
+def codeParts (acc : CParts) : Grp → CParts
+  | .nil => acc
+  | .triples tps rest => codeParts { acc with basic := joinP acc.basic (bgp tps) } rest
+  | .optional g rest =>
+    codeParts { acc with opts := acc.opts ++ [assembleCode (codeParts ⟨.unit, [], []⟩ g)] } rest
+  | .union a b rest =>
+    let u := Pat.union (assembleCode (codeParts ⟨.unit, [], []⟩ a)) (assembleCode (codeParts ⟨.unit, [], []⟩ b))
+    codeParts { acc with basic := joinP acc.basic u } rest
+  | .group g rest =>
+    codeParts { acc with basic := joinP acc.basic (assembleCode (codeParts ⟨.unit, [], []⟩ g)) } rest
+  | .filter e rest => codeParts { acc with filters := acc.filters ++ [e] } rest
+
+def grpAppend : Grp → Grp → Grp
+  | .nil, r => r
+  | .triples t rest, r => .triples t (grpAppend rest r)
+  | .optional g rest, r => .optional g (grpAppend rest r)
+  | .union a b rest, r => .union a b (grpAppend rest r)
+  | .group g rest, r => .group g (grpAppend rest r)
+  | .filter e rest, r => .filter e (grpAppend rest r)
+
+def isSingle : Grp → Bool
+  | .triples _ .nil => true
+  | .optional _ .nil => true
+  | .union _ _ .nil => true
+  | .group _ .nil => true
+  | .filter _ .nil => true
+  | _ => false
+
+/-- the parser hands back a group of exactly one element as that element; nested in another
+group, a lone FILTER or OPTIONAL thereby becomes a FILTER or OPTIONAL of the outer group -/
+def unwrapG : Grp → Grp
+  | .nil => .nil
+  | .triples t rest => .triples t (unwrapG rest)
+  | .optional g rest => .optional (unwrapG g) (unwrapG rest)
+  | .union a b rest => .union (unwrapG a) (unwrapG b) (unwrapG rest)
+  | .group g rest => if isSingle (unwrapG g) then grpAppend (unwrapG g) (unwrapG rest) else .group (unwrapG g) (unwrapG rest)
+  | .filter e rest => .filter e (unwrapG rest)
+
+/-- the logical plan the translator produces for `{ g }` (at the top, in a UNION branch and in an
+OPTIONAL a group of one element is translated on its own: the general assembly gives the same plan) -/
+def transCode (g : Grp) : Pat := assembleCode (codeParts ⟨.unit, [], []⟩ (unwrapG g))
 
 /-- an `Int64` pushed into a `String` vector: "type mismatch — push a default value" -/
 def strOfCell (env : Env) : Cell → Cell
@@ -754,7 +1461,7 @@ def instantiate (env : Env) (cols : List Nat) (row : Row) (tp : TP) : Option Tri
 selection vector they read the first `k` physical rows, `k` the number of selected rows -/
 def physRows (c : Chunk) : List Row := (c.take (selRows c).length).map (·.2)
 
-def Table.updRows (t : Table) : List Row := t.chunks.flatMap physRows
+def updRows (t : Table) : List Row := t.chunks.flatMap physRows
 
 def hasVar (tp : TP) : Bool := !(tpCols tp).isEmpty
 
@@ -770,7 +1477,7 @@ def deleteWhereStep (env : Env) (plan : Pat) (u : Option UState) (tp : TP) : Opt
   u.bind fun u =>
     if hasVar tp then
       (exec env u.st u.full plan).map fun t =>
-        (t.updRows.filterMap (fun r => instantiate env t.cols r tp)).foldl UState.remove u
+        ((updRows t).filterMap (fun r => instantiate env t.cols r tp)).foldl UState.remove u
     else (groundTriple env tp).map u.remove
 
 def allGroundOk (env : Env) (tps : List TP) : Bool :=
@@ -792,242 +1499,10 @@ def execUpdate (env : Env) (u : UState) : Update → Option UState
     else none
   | .modify del ins w =>
     (exec env u.st u.full (transCode w)).map fun t =>
-      let rows := t.updRows
+      let rows := (updRows t)
       let u1 := (del.flatMap fun tp => rows.filterMap fun r => instantiate env t.cols r tp).foldl UState.remove u
       (ins.flatMap fun tp => rows.filterMap fun r => instantiate env t.cols r tp).foldl UState.insert u1
 
-/-! ## specification of the query forms and of the updates -/
-
-def restrict (vars : List Nat) (μ : Sol) : Sol :=
-  (List.range μ.length).map fun v => if vars.contains v then μ.get v else none
-
-def dedupSols : List Sol → List Sol
-  | [] => []
-  | c :: cs => if (dedupSols cs).contains c then dedupSols cs else c :: dedupSols cs
-
-/-- the order of §15.1 on the terms of one class: unbound < blank < IRI < literal; IRIs and simple
-literals by their text; everything else is left open by the standard (`none`) -/
-def rank (env : Env) : Option Nat → Nat
-  | none => 0
-  | some x => match env.kind x with
-    | .blank => 1
-    | .iri => 2
-    | _ => 3
-
-def termLt (env : Env) (a b : Option Nat) : Bool :=
-  if rank env a != rank env b then decide (rank env a < rank env b)
-  else match a, b with
-    | some x, some y =>
-      match env.kind x, env.kind y with
-      | .int m, .int n => decide (m < n)
-      | _, _ => env.strLt (env.lex x) (env.lex y)
-    | _, _ => false
-
-def cmpSol (env : Env) (keys : List (Nat × Bool)) (a b : Sol) : Ordering :=
-  match keys with
-  | [] => .eq
-  | (v, desc) :: rest =>
-    let o : Ordering := if termLt env (a.get v) (b.get v) then .lt else if termLt env (b.get v) (a.get v) then .gt else .eq
-    match (if desc then o.swap else o) with
-    | .eq => cmpSol env rest a b
-    | o' => o'
-
-def insertSol (le : Sol → Sol → Bool) (x : Sol) : List Sol → List Sol
-  | [] => [x]
-  | y :: ys => if le y x then y :: insertSol le x ys else x :: y :: ys
-
-def sortSols (le : Sol → Sol → Bool) (l : List Sol) : List Sol :=
-  l.foldl (fun acc x => insertSol le x acc) []
-
-def sliceOpt {α : Type} (offset limit : Option Nat) (l : List α) : List α :=
-  let l1 := match offset with | none => l | some k => l.drop k
-  match limit with | none => l1 | some k => l1.take k
-
-/-- SELECT (§18.2.4–18.2.5): pattern, ORDER BY, projection, DISTINCT, OFFSET/LIMIT -/
-def specSelect (env : Env) (n : Nat) (G : List Triple) (q : Select) : List Sol :=
-  let sols := eval env n G (transStd q.where_)
-  let sorted := if q.order.isEmpty then sols else sortSols (fun a b => cmpSol env q.order a b != .gt) sols
-  let projected := match q.proj with | none => sorted | some vars => sorted.map (restrict vars)
-  let dd := if q.distinct then (dedupSols projected.reverse).reverse else projected
-  sliceOpt q.offset q.limit dd
-
-/-- one group of a COUNT query: the key and the number -/
-structure CountRow where
-  key : List (Option Nat)
-  count : Nat
-  deriving DecidableEq, Repr
-
-def dedupTerms : List Nat → List Nat
-  | [] => []
-  | c :: cs => if (dedupTerms cs).contains c then dedupTerms cs else c :: dedupTerms cs
-
-def specCountOf (q : Count) (sols : List Sol) : Nat :=
-  match q.arg with
-  | none => sols.length
-  | some v =>
-    let vals := sols.filterMap fun μ => μ.get v
-    if q.distinct then (dedupTerms vals).length else vals.length
-
-def specGroupKeys (vars : List Nat) (sols : List Sol) : List (List (Option Nat)) :=
-  (sols.map fun μ => vars.map μ.get).foldl (fun acc k => if acc.contains k then acc else acc ++ [k]) []
-
-/-- COUNT with GROUP BY (§18.5, Group / Aggregation / AggregateJoin) before ORDER BY and slicing -/
-def specCountRows (env : Env) (n : Nat) (G : List Triple) (q : Count) : List CountRow :=
-  let sols := eval env n G (transStd q.where_)
-  if q.groupBy.isEmpty then [⟨[], specCountOf q sols⟩]
-  else (specGroupKeys q.groupBy sols).map fun k =>
-    ⟨k, specCountOf q (sols.filter fun μ => (q.groupBy.map μ.get) == k)⟩
-
-def cmpNat (desc : Bool) (a b : Nat) : Ordering :=
-  let o : Ordering := if a < b then .lt else if b < a then .gt else .eq
-  if desc then o.swap else o
-
-def cmpTerm (env : Env) (desc : Bool) (a b : Option Nat) : Ordering :=
-  let o : Ordering := if termLt env a b then .lt else if termLt env b a then .gt else .eq
-  if desc then o.swap else o
-
-def keyAt (q : Count) (r : CountRow) (v : Nat) : Option Nat :=
-  ((q.groupBy.zip r.key).find? fun vk => vk.1 == v).bind (·.2)
-
-def cmpCountRow (env : Env) (q : Count) (keys : List (Nat × Bool)) (a b : CountRow) : Ordering :=
-  match keys with
-  | [] => .eq
-  | (v, desc) :: rest =>
-    match (if v = q.alias then cmpNat desc a.count b.count else cmpTerm env desc (keyAt q a v) (keyAt q b v)) with
-    | .eq => cmpCountRow env q rest a b
-    | o => o
-
-def insertCR (le : CountRow → CountRow → Bool) (x : CountRow) : List CountRow → List CountRow
-  | [] => [x]
-  | y :: ys => if le y x then y :: insertCR le x ys else x :: y :: ys
-
-def specCount (env : Env) (n : Nat) (G : List Triple) (q : Count) : List CountRow :=
-  let rows := specCountRows env n G q
-  let sorted := if q.order.isEmpty then rows
-    else rows.foldl (fun acc x => insertCR (fun a b => cmpCountRow env q q.order a b != .gt) x acc) []
-  sliceOpt q.offset q.limit sorted
-
-def specInsert (set : List Triple) (t : Triple) : List Triple := if t ∈ set then set else set ++ [t]
-def specRemove (set : List Triple) (t : Triple) : List Triple := set.filter (· != t)
-
-def valOf (μ : Sol) : PT → Option Nat
-  | .const c => some c
-  | .var v => μ.get v
-
-/-- instantiation of a template triple; an unbound variable or an ill-formed triple gives nothing -/
-def specInst (env : Env) (μ : Sol) (tp : TP) : Option Triple :=
-  (valOf μ tp.s).bind fun s => (valOf μ tp.p).bind fun p => (valOf μ tp.o).bind fun o =>
-    if wellFormed env s p then some ⟨s, p, o⟩ else none
-
-def maxVarPT : PT → Nat
-  | .var v => v + 1
-  | .const _ => 0
-
-def nVarsTPs (tps : List TP) : Nat :=
-  tps.foldl (fun m tp => max m (max (maxVarPT tp.s) (max (maxVarPT tp.p) (maxVarPT tp.o)))) 0
-
-/-- SPARQL 1.1 Update §3.1: the resulting graph; `none` = the request is not legal
-(a literal subject or a non-IRI predicate in ground data) -/
-def specUpdate (env : Env) (n : Nat) (G : List Triple) : Update → Option (List Triple)
-  | .insertData ts => if ts.all fun t => wellFormed env t.s t.p then some (ts.foldl specInsert G) else none
-  | .deleteData ts => if ts.all fun t => wellFormed env t.s t.p then some (ts.foldl specRemove G) else none
-  | .deleteWhere tps =>
-    let sols := eval env n G (bgp tps)
-    some ((tps.flatMap fun tp => sols.filterMap fun μ => specInst env μ tp).foldl specRemove G)
-  | .modify del ins w =>
-    let sols := eval env n G (transStd w)
-    let G1 := (del.flatMap fun tp => sols.filterMap fun μ => specInst env μ tp).foldl specRemove G
-    some ((ins.flatMap fun tp => sols.filterMap fun μ => specInst env μ tp).foldl specInsert G1)
-
-/-! ## syntactic conditions (hypotheses of the theorems in `Props/C13Sparql.lean`, signatures in
-the driver) -/
-
-/-- the column names the planner computes (`plan_join`: all left, then the right ones that are new;
-`plan_union`: those of the first input) -/
-def patCols : Pat → List Nat
-  | .unit => []
-  | .scan tp => tpCols tp
-  | .join a b => patCols a ++ (patCols b).filter fun v => !(patCols a).contains v
-  | .leftJoin a b _ => patCols a ++ (patCols b).filter fun v => !(patCols a).contains v
-  | .union a _ => patCols a
-  | .filter _ a => patCols a
-
-/-- variables bound in every solution -/
-def certain : Pat → List Nat
-  | .unit => []
-  | .scan tp => tpCols tp
-  | .join a b => certain a ++ certain b
-  | .leftJoin a _ _ => certain a
-  | .union a b => (certain a).filter fun v => (certain b).contains v
-  | .filter _ a => certain a
-
-def linearTP (tp : TP) : Bool := decide (tpCols tp).Nodup
-
-def patLinear : Pat → Bool
-  | .unit => true
-  | .scan tp => linearTP tp
-  | .join a b => patLinear a && patLinear b
-  | .leftJoin a b _ => patLinear a && patLinear b
-  | .union a b => patLinear a && patLinear b
-  | .filter _ a => patLinear a
-
-def patHasOptional : Pat → Bool
-  | .unit => false
-  | .scan _ => false
-  | .leftJoin _ _ _ => true
-  | .join a b => patHasOptional a || patHasOptional b
-  | .union a b => patHasOptional a || patHasOptional b
-  | .filter _ a => patHasOptional a
-
-/-- `leftJoin a b (some e)` written the way the translator writes it -/
-def normOpt : Pat → Pat
-  | .unit => .unit
-  | .scan tp => .scan tp
-  | .join a b => .join (normOpt a) (normOpt b)
-  | .union a b => .union (normOpt a) (normOpt b)
-  | .filter e a => .filter e (normOpt a)
-  | .leftJoin a b none => .leftJoin (normOpt a) (normOpt b) none
-  | .leftJoin a b (some e) => .leftJoin (normOpt a) (.filter e (normOpt b)) none
-
-def unionAligned : Pat → Bool
-  | .unit => true
-  | .scan _ => true
-  | .join a b => unionAligned a && unionAligned b
-  | .leftJoin a b _ => unionAligned a && unionAligned b
-  | .union a b => patCols a == patCols b && unionAligned a && unionAligned b
-  | .filter _ a => unionAligned a
-
-def ptConsts : PT → List Nat
-  | .var _ => []
-  | .const c => [c]
-
-def tpConsts (tp : TP) : List Nat := ptConsts tp.s ++ ptConsts tp.p ++ ptConsts tp.o
-
-def exprConsts : Expr → List Nat
-  | .eq a b => ptConsts a ++ ptConsts b
-  | .ne a b => ptConsts a ++ ptConsts b
-  | .lt a b => ptConsts a ++ ptConsts b
-  | .bound _ => []
-  | .not e => exprConsts e
-  | .and a b => exprConsts a ++ exprConsts b
-  | .or a b => exprConsts a ++ exprConsts b
-
-def condConsts : Option Expr → List Nat
-  | none => []
-  | some e => exprConsts e
-
-def patConsts : Pat → List Nat
-  | .unit => []
-  | .scan tp => tpConsts tp
-  | .join a b => patConsts a ++ patConsts b
-  | .union a b => patConsts a ++ patConsts b
-  | .leftJoin a b c => patConsts a ++ patConsts b ++ condConsts c
-  | .filter e a => exprConsts e ++ patConsts a
-
-def triplesTerms (G : List Triple) : List Nat := G.flatMap fun t => [t.s, t.p, t.o]
-
-/-- two different terms of the list are written the same way -/
-def lexClash (env : Env) (terms : List Nat) : Bool :=
-  terms.any fun a => terms.any fun b => a != b && env.lex a == env.lex b
+end Old
 
 end Grafeo.Sparql
